@@ -304,9 +304,17 @@ pub fn preprocess_str<T: AsRef<Path>, U: AsRef<Path>, V: BuildHasher>(
         match n.clone() {
             NodeEvent::Enter(RefNode::SourceDescriptionNotDirective(x)) => {
                 let locate: Locate = x.try_into().unwrap();
-                if let Some(last_include_line) = last_include_line {
-                    if last_include_line == locate.line {
-                        return Err(Error::IncludeLine);
+                // White space may follow an `include on its line: the item counts from
+                // the line of its first character that is not white space.
+                let text = locate.str(s);
+                let body = text.trim_start();
+                if !body.is_empty() {
+                    let leading = &text[..text.len() - body.len()];
+                    let newlines = leading.bytes().filter(|x| *x == b'\n').count() as u32;
+                    if let Some(last_include_line) = last_include_line {
+                        if last_include_line == locate.line + newlines {
+                            return Err(Error::IncludeLine);
+                        }
                     }
                 }
             }
